@@ -26,8 +26,13 @@ def replay_dir(pid):
     return os.path.join(VERIF, "replays", pid)
 
 
+def out_root():
+    """Where evidence and new violation replays go (VERIF_OUT redirects them for sensitivity runs)."""
+    return os.environ.get("VERIF_OUT") or VERIF
+
+
 def write_replay(pid, case, clause, msg, origin):
-    d = replay_dir(pid)
+    d = os.path.join(out_root(), "replays", pid)
     os.makedirs(d, exist_ok=True)
     h = base.case_hash(case)
     fn = os.path.join(d, f"violation_{h}.json")
@@ -190,8 +195,8 @@ def cmd_check(pid, tier, seed, nshards=None, examples=None):
             pass
         except FileNotFoundError:
             pass
-        os.makedirs(os.path.join(VERIF, "evidence"), exist_ok=True)
-        with open(os.path.join(VERIF, "evidence", f"{pid}.json"), "w") as f:
+        os.makedirs(os.path.join(out_root(), "evidence"), exist_ok=True)
+        with open(os.path.join(out_root(), "evidence", f"{pid}.json"), "w") as f:
             json.dump(evidence, f, indent=1, sort_keys=True)
         print(f"{pid} tier={tier} seed={seed}: evaluations={evidence['coverage']['evaluations']} "
               f"distinct_nontrivial={len(tot['nontrivial'])} wall={wall:.1f}s")
